@@ -19,7 +19,7 @@ func c02case(c GCase, a *run.Acc) {
 	env := gram.NewEnv(c.In)
 	gd := gram.NewGuard(env.Base)
 	gd.MaxEvents, gd.MaxCalls = 150000, 150000
-	b := gram.Build(g, &gram.Hooks{Inside: gd.Inside, Outside: gd.Outside})
+	b := gram.Build(g, &gram.Hooks{Inside: gd.Inside, Outside: gd.Outside, MemoExpr: c.MemoExpr})
 	o := gram.Run(env, b.NTs[c.NT], c.Pos)
 	a.Count("probe_events", int64(gd.Events))
 	a.Count("executions_of_memoized_parsers", int64(gd.Executed))
